@@ -75,6 +75,7 @@ let table : (str * (z list -> z)) list = [
   ("cligraph", judge_cligraph);
   ("climatd", judge_climatd);
   ("cligraphout", judge_cligraphout);
+  ("clisub", judge_clisub);
   ("leaf", judge_leaf);
   ("cliverdict", judge_cliverdict);
 ]
